@@ -90,7 +90,8 @@ Definition accept_new_validator (c : chain) (p : pending_val) : mres :=
   let s3 := set_new_index s2 val v in
   let c1 := set_pending (with_stk c s3) (remove_first_pending val (pending (poa c))) in
   let info := {| si_start := height c; si_index := 0; si_until := now c; si_tomb := false; si_missed := 0 |} in
-  update_bonded_pool (with_sl c1 (set_info (sl c1) (p_cons p) info)).
+  (* setSlashingInfo: the missed-block bitmap of the key is deleted, the signing info starts afresh *)
+  update_bonded_pool (with_sl c1 (set_info (del_bitmap (sl c1) (p_cons p)) (p_cons p) info)).
 
 (* ---- MsgSetPower ---- *)
 Definition msg_set_power (c : chain) (sender val power : Z) (unsafe : bool) : mres :=
